@@ -659,7 +659,7 @@ def small_finite_spec(rng):
 
 SCHED_KINDS = ["fifo-random", "fifo-grid", "fifo-bayesopt", "hb-stopping-random", "hb-promotion-random",
                "hb-stopping-bayesopt", "hb-promotion-hypertune", "dehb", "pbt"]
-NO_REPEAT = {"dehb", "fifo-random", "fifo-grid", "fifo-bayesopt", "hb-stopping-random", "hb-promotion-random",
+NO_REPEAT = {"dehb", "synchb", "hb-pasha-random", "hb-promotion-bayesopt", "fifo-random", "fifo-grid", "fifo-bayesopt", "hb-stopping-random", "hb-promotion-random",
              "hb-stopping-bayesopt", "hb-promotion-hypertune"}
 FAST_GP = dict(opt_maxiter=3, opt_nstarts=1, num_init_candidates=15, debug_log=False)
 
@@ -702,14 +702,23 @@ def make_scheduler(case, space):
     common = dict(metric="m", mode="min", random_seed=seed, points_to_evaluate=pts)
     if kind.startswith("fifo-"):
         return FIFOScheduler(space, searcher=kind[5:], search_options=so, **common)
+    mra = case.get("max_resource_attr")        # name of the constant in the space which holds the maximum resource
     if kind.startswith("hb-"):
         _, typ, searcher = kind.split("-")
-        return HyperbandScheduler(space, searcher=searcher, type=typ, resource_attr="epoch", max_t=9,
+        lim = dict(max_resource_attr=mra) if mra else dict(max_t=9)
+        return HyperbandScheduler(space, searcher=searcher, type=typ, resource_attr="epoch",
                                   grace_period=1, reduction_factor=3, brackets=2 if searcher == "hypertune" else 1,
-                                  search_options=so, **common)
+                                  search_options=so, **lim, **common)
     if kind == "dehb":
-        return GeometricDifferentialEvolutionHyperbandScheduler(space, resource_attr="epoch", max_resource_level=9,
-                                                                grace_period=1, reduction_factor=3, **common)
+        lim = dict(max_resource_attr=mra) if mra else dict(max_resource_level=9)
+        return GeometricDifferentialEvolutionHyperbandScheduler(space, resource_attr="epoch",
+                                                                grace_period=1, reduction_factor=3, **lim, **common)
+    if kind == "synchb":
+        from syne_tune.optimizer.schedulers.synchronous import SynchronousGeometricHyperbandScheduler
+        lim = dict(max_resource_attr=mra) if mra else dict(max_resource_level=9)
+        return SynchronousGeometricHyperbandScheduler(space, searcher="random", resource_attr="epoch", grace_period=1,
+                                                      reduction_factor=3, search_options=dict(debug_log=False),
+                                                      **lim, **common)
     if kind == "pbt":
         return PopulationBasedTraining(space, resource_attr="epoch", max_t=9, population_size=3,
                                        perturbation_interval=1, **common)
@@ -726,9 +735,12 @@ def run_sched_case(ctx, case):
         sch = make_scheduler(case, space)
     running, epoch, new_cfgs, viol = {}, {}, [], None
     scratch_cfgs = []
+    n_resume_checked, resumed_bad = 0, False
     next_id, mi, n_sug, none_seen = 0, 0, 0, False
     metrics = case["metrics"]
-    sync = kind == "dehb"
+    sync = kind in ("dehb", "synchb")
+    mra = case.get("max_resource_attr")
+    exempt = (mra,) if mra else ()      # the scheduler writes the next milestone into this constant by design
     for op in case["ops"]:
         if viol is not None:
             break
@@ -765,11 +777,19 @@ def run_sched_case(ctx, case):
                         break
                     op = "report"
                 else:
-                    if sg.spawn_new_trial_id:
-                        bad = check_suggestion(space, sg.config)
+                    if sg.config is not None:
+                        # new trials AND resumed (promoted) trials whose configuration is overwritten by the suggestion
+                        bad = check_suggestion(space, sg.config, exempt)
+                        if bad is None and mra and not (type(sg.config[mra]) is int and 1 <= sg.config[mra] <= space[mra]):
+                            bad = ("max_resource_value_invalid", "%s=%r" % (mra, sg.config[mra]))
                         if bad:
-                            viol = bad
+                            viol = (bad[0], ("resume suggestion for trial %s: " % sg.checkpoint_trial_id if not sg.spawn_new_trial_id
+                                             else "") + bad[1])
+                            resumed_bad = not sg.spawn_new_trial_id
                             break
+                        if not sg.spawn_new_trial_id:
+                            n_resume_checked += 1
+                    if sg.spawn_new_trial_id:
                         new_cfgs.append(sg.config)
                         if sg.checkpoint_trial_id is None:
                             scratch_cfgs.append(sg.config)      # started from scratch = asked from the searcher
@@ -817,6 +837,10 @@ def run_sched_case(ctx, case):
             sch.on_trial_complete(tr, res)
             del running[t]
     PAUSED.clear()
+    if mra:
+        ctx.h("resume_suggestions_checked", "%s: %d" % (kind, min(n_resume_checked, 5)))
+    if viol is not None and resumed_bad:
+        return (viol[0] + "_in_resume_suggestion", viol[1]), len(new_cfgs), 0, none_seen
     # ---- checker over the new-trial suggestions ----
     init = expected_initial(space, pts_of(case))
     size = config_space_size(space)
@@ -1187,7 +1211,8 @@ def run_pp_case(ctx, rng):
 
 
 # --------------------------------------------------------------------------
-SEARCHER_OF = {"fifo-random": "RandomSearcher", "hb-stopping-random": "RandomSearcher",
+SEARCHER_OF = {"hb-pasha-random": "RandomSearcher", "synchb": "RandomSearcher", "hb-promotion-bayesopt": "GPMultiFidelitySearcher",
+               "fifo-random": "RandomSearcher", "hb-stopping-random": "RandomSearcher",
                "hb-promotion-random": "RandomSearcher", "fifo-grid": "GridSearcher",
                "fifo-bayesopt": "GPFIFOSearcher", "hb-stopping-bayesopt": "GPMultiFidelitySearcher",
                "hb-promotion-hypertune": "HyperTuneSearcher", "dehb": "DEHB sampler", "pbt": "PBT explore"}
@@ -1258,6 +1283,19 @@ def run(ctx, replay=None):
                           pts=[{"lr": 0.1, "wd": 1e-2, "mom": 0.7, "layers": 4}, {"lr": 1e-6, "wd": 1e-5, "mom": 0.1, "layers": 1},
                                {"lr": 0.1, "wd": 1e-5}], num_init_random=2, max_suggest=6, ops=["suggest", "report"] * 8,
                           metrics=gen_metrics(rng, 16)))
+        # pause/resume schedulers with max_resource_attr and constants in the space: histories reaching promotions
+        for kind in ("hb-promotion-random", "hb-pasha-random", "hb-promotion-bayesopt", "dehb", "synchb"):
+            for _ in range(ctx.n(3 if "bayesopt" in kind else 6, 30)):
+                spec = gen_space_spec(rng, finite_only=False, nmax=2, consts=False)
+                for nm, v in rng.sample([["dataset", "cifar"], ["seed", 7], ["gamma", 0.5]], rng.randint(1, 3)):
+                    spec.insert(rng.randint(0, len(spec)), [nm, "const", v])
+                spec.insert(rng.randint(0, len(spec)), ["epochs", "const", 9])
+                n = 8 if "bayesopt" in kind else rng.randint(10, 20)
+                cases.append(dict(kind="sched", sched=kind, spec=spec, pts=gen_points(rng, spec, build_space(spec), True),
+                                  retype_trial_configs=False, seed=rng.randrange(10 ** 6), num_init_random=rng.choice([2, 50]),
+                                  max_suggest=n, ops=[rng.choice(["suggest", "report", "report", "report"]) for _ in range(n * 8)],
+                                  metrics=gen_metrics(rng, n * 4), max_resource_attr="epochs",
+                                  directed="pause_resume_with_max_resource_attr"))
         for _ in range(ctx.n(10, 40)):     # DEHB driven until a 30-configuration space is (almost) used up
             cases.append(dict(kind="sched", sched="dehb", retype_trial_configs=False, seed=rng.randrange(10 ** 6), pts=[],
                               spec=[["a", "dom", ["randint", 0, 5]], ["b", "dom", ["choice", ["0", "1", "2", "3", "4"]]]],
